@@ -120,6 +120,9 @@ type poolComp struct {
 	deposits map[string]*big.Int
 	paid     map[string]*big.Int
 	settleOK bool
+	readFault bool // every deposit lookup fails while set (one op)
+	settleFailOnce bool // the settlement fails at its first attempt within an operation and would succeed afterwards
+	settleCalls    int
 	duringNode string
 	duringAmt  *big.Int
 	conns    map[string]*fakeConn
@@ -178,6 +181,10 @@ func (c *poolComp) setup(t []string) string {
 	c.conns = map[string]*fakeConn{}
 	c.outcomes = map[string]string{}
 	getter := func(account store.Account) (*big.Int, error) {
+		if c.readFault {
+			// the on-chain lookup fails (the wallet owner has started a withdrawal: deposit timelocked)
+			return nil, payment.ErrDepositTimelocked
+		}
 		if d, ok := c.deposits[string(account)]; ok {
 			return new(big.Int).Set(d), nil
 		}
@@ -205,7 +212,8 @@ func (c *poolComp) setup(t []string) string {
 			if c.duringNode != "" {
 				c.st.AddNodeBalance(store.NodeID(c.duringNode), c.duringAmt)
 			}
-			if !c.settleOK {
+			c.settleCalls++
+			if !c.settleOK && !(c.settleFailOnce && c.settleCalls > 1) {
 				return "", errors.New("settlement failed")
 			}
 			c.deposits[string(account)] = new(big.Int).Set(newBalance)
@@ -242,6 +250,8 @@ func poolErrClass(err error) string {
 	switch {
 	case strings.Contains(msg, "settlement failed"):
 		return "err SettleFailed"
+	case err == payment.ErrDepositTimelocked:
+		return "err DepositLookup"
 	case strings.Contains(msg, "does not match nodeURI"):
 		return "err UriIdMismatch"
 	case strings.Contains(msg, "NodeURI is missing host"):
@@ -285,7 +295,8 @@ func signKind(kind string, who *identity, method string, nonce int64, args ...in
 		return b
 	}
 	switch kind {
-	case "good", "oldfmt":
+	case "good", "oldfmt", "respell0x", "respellUP", "respell1":
+		// (respell*: a genuine signature over the canonical spelling; the op sends another spelling of the id)
 		return good(who)
 	case "bad":
 		b := dec(good(who))
@@ -328,6 +339,33 @@ func signKind(kind string, who *identity, method string, nonce int64, args ...in
 
 // find0x: the signature kind `good0x` asks for a genuine signature whose text happens to begin with "0x" (one in
 // 4096 base64 signatures does): the nonce is moved forward until the node's own signature has that form.
+// respell: another spelling of the same node id (hex is case-insensitive and may carry a 0x prefix for lenient
+// parsers): a request that names the identity this way, with a signature made over the canonical spelling - a captured
+// request replayed under a "different" identity - is signed for another identity string and must be refused.
+func respell(id, kind string) string {
+	switch kind {
+	case "respell0x":
+		return "0x" + id
+	case "respellUP":
+		return strings.ToUpper(id)
+	case "respell1":
+		for i, ch := range id {
+			if ch >= 'a' && ch <= 'f' {
+				return id[:i] + strings.ToUpper(string(ch)) + id[i+1:]
+			}
+		}
+	}
+	return id
+}
+
+// sentID: the identity string put on the wire for this op
+func sentID(who *identity, kind string) string {
+	if strings.HasPrefix(kind, "respell") {
+		return respell(who.id, kind)
+	}
+	return who.id
+}
+
 var searchNs int64
 
 func find0x(who *identity, method string, nonce int64, args ...interface{}) int64 {
@@ -485,7 +523,7 @@ func (c *poolComp) exec(t []string) (extra []string, out string, eff bool) {
 		}
 		before, had := c.lastSeen(who.id)
 		t0 := time.Now().UnixNano()
-		_, err := c.p.Connect(ctx, sig, who.id, nonce, req)
+		_, err := c.p.Connect(ctx, sig, sentID(who, t[4]), nonce, req)
 		now := c.observedNow(who.id, before, had, t0)
 		x := []string{"now=" + TTok(now)}
 		if err != nil {
@@ -540,7 +578,9 @@ func (c *poolComp) exec(t []string) (extra []string, out string, eff bool) {
 		}
 		before, had := c.lastSeen(who.id)
 		t0 := time.Now().UnixNano()
-		resp, err := c.p.Update(ctxBG, sig, who.id, nonce, req)
+		c.readFault = get("readfault") == "1"
+		resp, err := c.p.Update(ctxBG, sig, sentID(who, t[3]), nonce, req)
+		c.readFault = false
 		now := c.observedNow(who.id, before, had, t0)
 		c.rec.mu.Lock()
 		c.rec.failAt = map[int]bool{}
@@ -596,7 +636,7 @@ func (c *poolComp) exec(t []string) (extra []string, out string, eff bool) {
 		c.rec.activeSeen, c.rec.lastActive = false, nil
 		c.rec.mu.Unlock()
 		t0 := time.Now().UnixNano()
-		resp, err := c.p.Peer(ctx, sig, who.id, nonce, req)
+		resp, err := c.p.Peer(ctx, sig, sentID(who, t[3]), nonce, req)
 		c.rec.mu.Lock()
 		choice := canonSlice(c.rec.lastActive)
 		c.rec.mu.Unlock()
@@ -631,7 +671,7 @@ func (c *poolComp) exec(t []string) (extra []string, out string, eff bool) {
 		}
 		before, had := c.lastSeen(who.id)
 		t0 := time.Now().UnixNano()
-		_, err := c.p.Host(ctx, sig, who.id, nonce, req)
+		_, err := c.p.Host(ctx, sig, sentID(who, t[4]), nonce, req)
 		x := []string{"now=" + TTok(c.observedNow(who.id, before, had, t0))}
 		if err != nil {
 			return x, poolErrClass(err), false
@@ -665,7 +705,7 @@ func (c *poolComp) exec(t []string) (extra []string, out string, eff bool) {
 		c.rec.mu.Unlock()
 		before, had := c.lastSeen(who.id)
 		t0 := time.Now().UnixNano()
-		resp, err := c.p.Client(ctx, sig, who.id, nonce, req)
+		resp, err := c.p.Client(ctx, sig, sentID(who, t[4]), nonce, req)
 		now := c.observedNow(who.id, before, had, t0)
 		c.rec.mu.Lock()
 		choice := canonSlice(c.rec.lastActive)
@@ -694,7 +734,7 @@ func (c *poolComp) exec(t []string) (extra []string, out string, eff bool) {
 		alteredArgs = []interface{}{nodeID + "0"}
 		sig := signKind(t[3], who, "pool_addNode", nonce, nodeID)
 		t0 := time.Now().UnixNano()
-		err := c.pay.AddNode(ctxBG, sig, who.id, nonce, nodeID)
+		err := c.pay.AddNode(ctxBG, sig, sentID(who, t[3]), nonce, nodeID)
 		x := []string{"now=" + TTok(t0)}
 		if err != nil {
 			return x, poolErrClass(err), false
@@ -706,6 +746,7 @@ func (c *poolComp) exec(t []string) (extra []string, out string, eff bool) {
 		c.times = append(c.times, nonce)
 		sig := signKind(t[3], who, "pool_withdraw", nonce)
 		c.settleOK = get("settle") == "ok"
+		c.settleFailOnce, c.settleCalls = get("settle") == "failonce", 0
 		c.duringNode, c.duringAmt = "", nil
 		if d := get("during"); d != "" {
 			f := strings.SplitN(d, ":", 2)
@@ -717,7 +758,7 @@ func (c *poolComp) exec(t []string) (extra []string, out string, eff bool) {
 			before.Set(p)
 		}
 		t0 := time.Now().UnixNano()
-		err := c.pay.Withdraw(ctxBG, sig, who.id, nonce)
+		err := c.pay.Withdraw(ctxBG, sig, sentID(who, t[3]), nonce)
 		x := []string{"now=" + TTok(t0)}
 		if err != nil {
 			return x, poolErrClass(err), false
